@@ -214,7 +214,9 @@ static void run_case(Rng& r, Ctx& c)
   const char* FORM[] = {"primal", "dual", "bayes", "colcok", "xvalid"};
   int nvar = 1 + (int)(r.next() % 3);
   if (form == 3 && nvar == 1) nvar = 2;
-  if (form == 2) nvar = 1; // kribayes: the standard Bayesian path is written for one variable (see report)
+  // kribayes(): one variable in 3 Bayesian cases out of 4; two variables otherwise (own key: the standard Bayesian path
+  // fills its data vector sample-major while the system is variable-major, see report)
+  if (form == 2) nvar = r.coin(0.25) ? 2 : 1;
   double L = r.pick(std::vector<double> {1.0, 100.0});
   int ncov = 1 + (int)(r.next() % 2);
   ModelSpec ms = genModel(r, ndim, nvar, ncov, L, 0, true);
@@ -343,7 +345,10 @@ static void run_case(Rng& r, Ctx& c)
       if (form == 2)
       {
         // own oracle family per drift order (kribayes() with more than one drift function was wrong until /repo 0548e0629)
-        pfx += "-" + drift;
+        pfx += "-" + drift + (nvar > 1 ? "-mv" : "");
+        std::string kbE = nvar > 1 ? "C04:bayes:kribayes-multivariate" : "C04:bayes:kribayes:estim";
+        std::string kbS = nvar > 1 ? "C04:bayes:kribayes-multivariate" : "C04:bayes:kribayes:stdev";
+        std::string kbO = std::string("kribayes-") + drift + (nvar > 1 ? "-mv" : "");
         RefSol RB = refBayes(Sigma, X, Sigma0, X0, Sigma00, Z, pm, pc);
         if (!RB.ok || !(RB.kappa < KAPPA_MAX)) { c.skip("illcond"); continue; }
         tolE = 1e3 * EPS * std::max(R.kappa, RB.kappa) * zs;
@@ -352,16 +357,17 @@ static void run_case(Rng& r, Ctx& c)
         // standard path: kribayes(). Its own agreement with (R) is reported under a separate key so that the two
         // sides of the differential can be told apart
         StdOut S = stdKriging(data, tg, ms, true, pm, pc);
-        if (S.rc == 0 && S.est.size() == 1)
-        {
-          closeRel(c, "kribayes-" + drift + "-estim-ref", std::string("C04:bayes:kribayes:estim"), S.est[0], RB.est[0], tolE, zs, what);
-          closeRel(c, "kribayes-" + drift + "-var-ref", std::string("C04:bayes:kribayes:stdev"), S.sd[0] * S.sd[0], std::max(RB.var[0], 0.), tolV * 10, sill, what);
-        }
-        if (!c.truth("kc-bayes-rc", key + ":kribayes-rc", S.rc == 0 && S.est.size() == (size_t)nvar, what)) continue;
+        if (S.rc == 0 && S.est.size() == (size_t)nvar)
+          for (int v = 0; v < nvar; v++)
+          {
+            closeRel(c, kbO + "-estim-ref", kbE, S.est[v], RB.est[v], tolE, zs, what);
+            closeRel(c, kbO + "-var-ref", kbS, S.sd[v] * S.sd[v], std::max(RB.var[v], 0.), tolV * 10, sill, what);
+          }
+        if (!c.truth("kc-bayes-rc", "C04:bayes:kribayes:rc", S.rc == 0 && S.est.size() == (size_t)nvar, what)) continue;
         std::vector<double> wv;
         for (double s : S.sd) wv.push_back(s * s);
         // (one root-cause key for "kribayes() disagrees", whether seen against (R) or against KrigingCalcul)
-        cmp3(c, pfx, key, est, sd, VectorDouble(), S.est, wv, {}, tolE, tolV * 10, what, "std", "C04:bayes:kribayes:estim", "C04:bayes:kribayes:stdev");
+        cmp3(c, pfx, key, est, sd, VectorDouble(), S.est, wv, {}, tolE, tolV * 10, what, "std", kbE, kbS);
         continue;
       }
       // (R) long double reference
